@@ -16,7 +16,7 @@
 #               seeded shuffles, plus the module-level tries themselves
 # Faults: iterator cancellation at an arbitrary step, add() of a non-string.
 #
-from sim.core import HarnessError, Violation, canon, geometric, r, stream, weighted_choice
+from sim.core import bounded, HarnessError, Violation, canon, geometric, r, stream, weighted_choice
 
 NAME = "C09"
 
@@ -422,7 +422,10 @@ class Run(object):
         n = len(trie)
         if n != len(minimal):
             self.fail("len", op, n, len(minimal), {"trie": t, "minimal": [".".join(a) for a in minimal]})
-        self.judge_iteration(t, list(trie), op)
+        self.judge_iteration(t, bounded(trie, len(model.added)), op)
+
+    def entries_now(self, rec):
+        return len(self.models[rec["t"]].added)
 
     def judge_iteration(self, t, got, op):
         expected = sorted(".".join(a) for a in self.models[t].minimal())
@@ -498,7 +501,7 @@ class Run(object):
         self.stats.checks += 2
         if len(trie) != len(minimal):
             self.fail("len", op, len(trie), len(minimal), {"added": len(hostnames)})
-        got = sorted(trie)
+        got = sorted(bounded(trie, len(hostnames)))
         if got != minimal:
             diff = sorted(set(got) ^ set(minimal))[:10]
             self.fail("iteration", op, diff, [], {"added": len(hostnames)})
@@ -598,7 +601,7 @@ class Run(object):
             rec = self.iters.get(ev["it"])
             if rec is None:
                 return
-            n = ev.get("n", 1) if op == "iter_next" else 1 << 30
+            n = ev.get("n", 1) if op == "iter_next" else 4 * self.entries_now(rec) + 64
             done = False
             try:
                 while n > 0:
@@ -642,7 +645,7 @@ class Run(object):
             # same multiset, different schedules: identical observations
             obs = []
             for i, trie in enumerate(self.tries):
-                obs.append((len(trie), sorted(trie), self.models[i].text()))
+                obs.append((len(trie), sorted(bounded(trie, len(self.models[i].added))), self.models[i].text()))
             stats.checks += 1
             if any(o[2] != obs[0][2] for o in obs):
                 # after minimisation the per-trie multisets may differ; only
